@@ -153,13 +153,52 @@ def fd_bam_pacing(rng):
     return bad, dict(role='fd-bam', bam=bam_iv, eps=eps, size=size)
 
 
+def fd_flow_case(rng):
+    """J1939-22 connection mode, 2 real stacks, windows and a minimum packet interval that may be SHORTER than the round
+    trip: in bus order no FD.TP.DT segment goes out beyond what the CTS frames seen so far have granted, a CTS never
+    grants more than the RTS limit / the responder's own maximum / what is left, and the message arrives"""
+    maxc = [rng.choice([1, 2, 3, 8, 255]), rng.choice([1, 2, 3, 8, 255])]
+    iv = rng.choice([None, 500, 1000, 20000])
+    lat = rng.choice([1, 1000, 2000, 5000])
+    sc = net21.Scenario(C.REPO, rng.getrandbits(32), 2, dll='j1939-22', maxcmdt=maxc, cmdt=[iv] * 2, latency=lambda r, a, b, f: lat)
+    size = rng.choice([130, 250, 400, 1000])
+    sc.send(0, 0, 208, sc.addrs[1], 6, rand_payload(rng, size))
+    sc.net.run(60_000_000, stop=lambda: sc.tables_empty() and sc.net.quiet())
+    bad, granted, limit = [], {}, {}
+    for (t, src, cid, data, fd) in sc.net.bus:
+        pf, ps, sa = (cid >> 16) & 0xFF, (cid >> 8) & 0xFF, cid & 0xFF
+        if pf == 0x4D and len(data) >= 12:
+            ctl, sess = data[0] & 15, data[0] >> 4
+            seg = data[4] | (data[5] << 8) | (data[6] << 16)
+            if ctl == 0:
+                granted[(sa, ps, sess)] = 0
+                limit[(sa, ps, sess)] = (data[7], seg)
+            elif ctl == 1 and (ps, sa, sess) in granted:
+                lim, total = limit[(ps, sa, sess)]
+                if data[7] > lim or data[7] > maxc[src] or (data[7] and seg + data[7] - 1 > total):
+                    bad.append(f"t={t}: CTS grants {data[7]} segments from {seg} (RTS limit {lim}, own maximum {maxc[src]}, total {total})")
+                if data[7]:
+                    granted[(ps, sa, sess)] = seg + data[7] - 1
+        elif pf == 0x4E and len(data) > 4:
+            sess, seg = data[0] >> 4, data[1] | (data[2] << 8) | (data[3] << 16)
+            if (sa, ps, sess) in granted and seg > granted[(sa, ps, sess)]:
+                bad.append(f"t={t}: FD.TP.DT segment {seg} sent although the CTS frames so far grant only up to {granted[(sa, ps, sess)]} "
+                           f"(interval {iv}, latency {lat})")
+    if sc.net.errors:
+        bad.append(f"exception {sc.net.errors[0]}")
+    r = net21.check_exactly_once(sc)
+    if r:
+        bad.append(r)
+    return bad, dict(role='fd-flow', maxcmdt=maxc, interval=iv, latency=lat, size=size)
+
+
 def oracle(ctx, full):
     rng = random.Random(ctx.seed * 7907 + 9)
     n = ctx.n(60, 1500, full)
     findings, evals, distinct, samples = [], 0, set(), []
     for k in range(n):
         sub = random.Random(rng.getrandbits(48))
-        bad, desc = fd_bam_pacing(sub) if k % 6 == 5 else (stack_vs_stack(sub) if k % 2 == 0 else stack_vs_peer(sub))
+        bad, desc = fd_bam_pacing(sub) if k % 6 == 5 else (fd_flow_case(sub) if k % 6 == 3 else (stack_vs_stack(sub) if k % 2 == 0 else stack_vs_peer(sub)))
         evals += 1
         distinct.add(C.struct_hash(desc))
         if len(samples) < 2:
@@ -171,7 +210,7 @@ def oracle(ctx, full):
                 rule="even cases: 2-3 real stacks, windows 1..255 per stack, BAM interval default/10..190 ms, CMDT interval none/1..50 ms, "
                      "latencies {0,1us,1ms,5ms}, scheduling latency <= 2 ms, bus trace checked against the flow-control rules and delivery; odd "
                      "cases: one real stack against the reference responder (windows, 0-3 holds, reply latency <= 150 ms) or the reference "
-                     "originator (RTS limit 1..255); every sixth case: J1939-22 broadcast pacing (interval default/10..190 ms) on an idle stack whose thread sleeps as it asked; distinct = distinct scenario descriptions")
+                     "originator (RTS limit 1..255); every sixth case: J1939-22 connection mode with windows 1..255 and a packet interval shorter or longer than the round trip (no segment beyond the grants seen so far, no over-grant); every sixth case: J1939-22 broadcast pacing (interval default/10..190 ms) on an idle stack whose thread sleeps as it asked; distinct = distinct scenario descriptions")
 
 
 def replay(ctx, path):
